@@ -2,8 +2,10 @@ import Mathlib.Algebra.Module.BigOperators
 import Mathlib.Algebra.BigOperators.Group.Finset.Basic
 import Mathlib.Algebra.Field.Defs
 import Mathlib.Data.ZMod.Basic
+import Mathlib.LinearAlgebra.Matrix.Notation
 import BronVerif.Model.LinAlg
 import BronVerif.Lemmas.GaussJordanSolve
+import BronVerif.Lemmas.GaussJordanDet
 import BronVerif.Lemmas.FpField
 import Mathlib.Tactic.NormNum.Prime
 /-!
@@ -86,7 +88,16 @@ theorem solveLeft_complete_vecMul (m : Mat F) (n : ℕ) (r : List F) (hn : numCo
     ¬ ∃ x : List F, x.length = m.length ∧ vecMul x m = r := by
   subst hn; exact solveLeft_complete m _ r hr h
 
+/-- **Determinant**: the model's `det` (mirror of `SquareMatrix.Determinant`: forward elimination
+with first-non-zero pivot search, sign flip on row swap, product of the pivots, `0` as soon as a
+column has no pivot) equals Mathlib's `Matrix.det` of the same square matrix. -/
+theorem det_eq (m : Mat F) (hW : ∀ row ∈ m, row.length = m.length) :
+    det m = Matrix.det (toMatrix m.length m) :=
+  det_eq_matrix_det m hW
+
 /-! ### non-vacuity: concrete systems over `ZMod 7` -/
+
+local instance : Fact (Nat.Prime 7) := ⟨by norm_num⟩
 
 /-- `x + 2y = 3, 3x + y = 2` has the unique solution `(3, 0)`… evaluated by the model -/
 example : solveAugmented (F := ZMod 7) [[1, 2, 3], [3, 1, 2]] 2 = some [3, 0] := by decide +kernel
@@ -100,6 +111,10 @@ example : solveRight (F := ZMod 7) [[1, 2], [2, 4]] 2 [3, 0] = none := by decide
 example : solveLeft (F := ZMod 7) [[1, 3], [2, 1]] 2 [3, 2] = some [3, 0] := by decide +kernel
 example : solveLeft (F := ZMod 7) [[1, 2], [2, 4]] 2 [3, 0] = none := by decide +kernel
 example : numCols ([[1, 3], [2, 1]] : Mat (ZMod 7)) = 2 := by decide
+/-- a determinant that needs a row swap (`-2·3 = 1 mod 7`), and a singular matrix -/
+example : det ([[0, 2], [3, 4]] : Mat (ZMod 7)) = 1 := by decide +kernel
+example : det ([[1, 2], [2, 4]] : Mat (ZMod 7)) = 0 := by decide +kernel
+example : toMatrix 2 ([[0, 2], [3, 4]] : Mat (ZMod 7)) = !![0, 2; 3, 4] := by decide +kernel
 
 /-! ### the executable field `Fp p`
 
@@ -136,8 +151,6 @@ theorem solveRight_complete_Fp (m : Mat (Fp p)) (n : ℕ) (b : List (Fp p))
     ¬ ∃ x : List (Fp p), x.length = n ∧
       @mulVec (Fp p) Fp.instAdd Fp.instMul Fp.instOfNatOfNeZeroNat m x = b :=
   solveRight_complete m n b hm hb h
-
-local instance : Fact (Nat.Prime 7) := ⟨by norm_num⟩
 
 example : solveRight (F := Fp 7) [[1, 2], [3, 1]] 2 [3, 2] = some [3, 0] := by decide +kernel
 example : solveRight (F := Fp 7) [[1, 2], [2, 4]] 2 [3, 0] = none := by decide +kernel
